@@ -4,22 +4,30 @@ import Tcell.Gen.LockFacts
 Property C10 — concurrent use of one Screen from several goroutines is free of data races, and each Show reaches
 the terminal as one contiguous block.
 
-PARTIAL by construction (DESIGN.md §5 C10): the theorems are about the *extracted* model.  `lockset_sound`,
-`clean_field_race_free` and `blocks_contiguous` are generic (all thread counts, all schedules, all programs);
-`flagged_exact` / `discipline_partial` are evaluated by the kernel on the facts the translator regenerates from
-tscreen.go / screen.go / simulation.go on every run.  Go's memory model (go statement, channels, WaitGroup, Once)
-is axiomatised through the phase classification of the facts; the facts are as good as the translator, which is
-validated in both directions by the race detector (lib/props/C10.py, harness/race).
+PARTIAL by construction (DESIGN.md §5 C10): the theorems are about the *extracted* model.  `lockset_sound_multi`,
+`clean_field_race_free` and `blocks_contiguous` are generic (all thread counts, all schedules, all programs, any
+number of mutexes); `guards_exact` / `flagged_exact` / `discipline_partial` / `discipline_tree` are evaluated by the
+kernel on the facts the translator regenerates from tscreen.go / screen.go / simulation.go on every run.  Go's memory
+model (go statement, channels, WaitGroup, Once) is axiomatised through the phase classification of the facts; the facts
+are as good as the translator, which is validated in both directions by the race detector (lib/props/C10.py,
+harness/race).
+
+Two variants of the tree are covered by the same source (the kernel evaluates the regenerated facts):
+* pinned /repo: the facts flag the tail of `disengage` (Fini, Suspend) — `discipline_except_disengage`, `_partial` forms;
+* with fix C10-disengage-lifecycle (a second mutex `lifecycle` held for the whole of engage/disengage, the tail of
+  disengage under the screen lock): nothing is flagged and `discipline_tree` / `fields_race_free_tree` give the full
+  statements (every fact, every field that needs protection).
 -/
 namespace Tcell.Props.C10
 open Tcell.Model.Lockset
 
-/-! ## the lockset theorem -/
+/-! ## the lockset theorem (any number of mutexes) -/
 
-/-- invariant: at most one thread holds the mutex, and what is left of every thread is still `Guarded` from the
-    lock state the thread is really in -/
-def Inv (f : Nat) (c : Cfg) : Prop :=
-  (∀ i j, (c.th i).holds = true → (c.th j).holds = true → i = j) ∧ (∀ i, Guarded f (c.th i).holds (c.th i).rest)
+/-- invariant for one mutex `m` and one field `f`: at most one thread holds `m`, and what is left of every thread is
+    still `GuardedBy m f` from the lock state the thread is really in -/
+def Inv (m f : Nat) (c : Cfg) : Prop :=
+  (∀ i j, (c.th i).holds m = true → (c.th j).holds m = true → i = j) ∧
+  (∀ i, GuardedBy m f ((c.th i).holds m) (c.th i).rest)
 
 theorem getD_mem_or_nil {α : Type} (ts : List (List α)) (i : Nat) : ts.getD i [] ∈ ts ∨ ts.getD i [] = [] := by
   induction ts generalizing i with
@@ -32,7 +40,7 @@ theorem getD_mem_or_nil {α : Type} (ts : List (List α)) (i : Nat) : ts.getD i 
       · left; simp only [List.getD_cons_succ]; exact List.mem_cons_of_mem _ h
       · right; simp only [List.getD_cons_succ]; exact h
 
-theorem inv_init (f : Nat) (ts : List Thread) (h : ∀ t ∈ ts, Guarded f false t) : Inv f (initCfg ts) := by
+theorem inv_init (m f : Nat) (ts : List Thread) (h : ∀ t ∈ ts, GuardedBy m f false t) : Inv m f (initCfg ts) := by
   refine ⟨?_, ?_⟩
   · intro i j hi; simp [initCfg] at hi
   · intro i
@@ -41,90 +49,88 @@ theorem inv_init (f : Nat) (ts : List Thread) (h : ∀ t ∈ ts, Guarded f false
     · exact h _ hm
     · rw [hn]; exact True.intro
 
-theorem inv_step (f : Nat) {c c' : Cfg} (hi : Inv f c) (hs : Step c c') : Inv f c' := by
+/-- a step that leaves the lock set of the moving thread alone does not change who holds `m` -/
+theorem holds_upd_same {c : Cfg} {i a k m : Nat} {r : Thread}
+    (ha : (upd c.th i ⟨(c.th i).holds, k, r⟩ a).holds m = true) : (c.th a).holds m = true := by
+  by_cases ea : a = i
+  · subst ea; simpa [upd] using ha
+  · simpa [upd, ea] using ha
+
+/-- locking or unlocking ANOTHER mutex `k ≠ m` does not change who holds `m` -/
+theorem holds_upd_set {c : Cfg} {i a k s m : Nat} {v : Bool} {r : Thread} (hne : m ≠ k)
+    (ha : (upd c.th i ⟨setHold (c.th i).holds k v, s, r⟩ a).holds m = true) : (c.th a).holds m = true := by
+  by_cases ea : a = i
+  · subst ea; simpa [upd, setHold, hne] using ha
+  · simpa [upd, ea] using ha
+
+theorem inv_step (m f : Nat) {c c' : Cfg} (hi : Inv m f c) (hs : Step c c') : Inv m f c' := by
   obtain ⟨hmx, hg⟩ := hi
   cases hs with
-  | @lock i r hr hfree =>
-    refine ⟨?_, ?_⟩
-    · intro a b ha hb
-      by_cases ea : a = i <;> by_cases eb : b = i
-      · rw [ea, eb]
-      · simp [upd, eb] at hb; rw [hfree b] at hb; cases hb
-      · simp [upd, ea] at ha; rw [hfree a] at ha; cases ha
-      · simp [upd, ea] at ha; rw [hfree a] at ha; cases ha
-    · intro k
-      by_cases ek : k = i
-      · subst ek; have := hg k; rw [hr] at this; simpa [Guarded] using this
-      · simpa [upd, ek] using hg k
-  | @unlock i r hr hh =>
-    refine ⟨?_, ?_⟩
-    · intro a b ha hb
-      by_cases ea : a = i
-      · subst ea; simp [upd] at ha
-      · by_cases eb : b = i
-        · subst eb; simp [upd] at hb
-        · simp [upd, ea] at ha; simp [upd, eb] at hb; exact hmx a b ha hb
-    · intro k
-      by_cases ek : k = i
-      · subst ek; have := hg k; rw [hr] at this; simpa [Guarded] using this
-      · simpa [upd, ek] using hg k
+  | @lock i k r hr hfree =>
+    by_cases hk : m = k
+    · subst hk
+      refine ⟨?_, ?_⟩
+      · intro a b ha hb
+        by_cases ea : a = i <;> by_cases eb : b = i
+        · rw [ea, eb]
+        · simp [upd, eb] at hb; rw [hfree b] at hb; cases hb
+        · simp [upd, ea] at ha; rw [hfree a] at ha; cases ha
+        · simp [upd, ea] at ha; rw [hfree a] at ha; cases ha
+      · intro j
+        by_cases ej : j = i
+        · subst ej; have := hg j; rw [hr] at this; simpa [GuardedBy] using this
+        · simpa [upd, ej] using hg j
+    · refine ⟨fun a b ha hb => hmx a b (holds_upd_set hk ha) (holds_upd_set hk hb), ?_⟩
+      intro j
+      by_cases ej : j = i
+      · subst ej; have := hg j; rw [hr] at this; simpa [GuardedBy, setHold, hk] using this
+      · simpa [upd, ej] using hg j
+  | @unlock i k r hr hh =>
+    by_cases hk : m = k
+    · subst hk
+      refine ⟨?_, ?_⟩
+      · intro a b ha hb
+        by_cases ea : a = i
+        · subst ea; simp [upd] at ha
+        · by_cases eb : b = i
+          · subst eb; simp [upd] at hb
+          · simp [upd, ea] at ha; simp [upd, eb] at hb; exact hmx a b ha hb
+      · intro j
+        by_cases ej : j = i
+        · subst ej; have := hg j; rw [hr] at this; simpa [GuardedBy] using this
+        · simpa [upd, ej] using hg j
+    · refine ⟨fun a b ha hb => hmx a b (holds_upd_set hk ha) (holds_upd_set hk hb), ?_⟩
+      intro j
+      by_cases ej : j = i
+      · subst ej; have := hg j; rw [hr] at this; simpa [GuardedBy, setHold, hk] using this
+      · simpa [upd, ej] using hg j
   | @rd i g r hr =>
-    refine ⟨?_, ?_⟩
-    · intro a b ha hb
-      have ha' : (c.th a).holds = true := by
-        by_cases ea : a = i
-        · subst ea; simpa [upd] using ha
-        · simpa [upd, ea] using ha
-      have hb' : (c.th b).holds = true := by
-        by_cases eb : b = i
-        · subst eb; simpa [upd] using hb
-        · simpa [upd, eb] using hb
-      exact hmx a b ha' hb'
-    · intro k
-      by_cases ek : k = i
-      · subst ek; have := hg k; rw [hr] at this; simp only [upd_same]; exact this.2
-      · simpa [upd, ek] using hg k
+    refine ⟨fun a b ha hb => hmx a b (holds_upd_same ha) (holds_upd_same hb), ?_⟩
+    intro j
+    by_cases ej : j = i
+    · subst ej; have := hg j; rw [hr] at this; simp only [upd_same]; exact this.2
+    · simpa [upd, ej] using hg j
   | @wr i g r hr =>
-    refine ⟨?_, ?_⟩
-    · intro a b ha hb
-      have ha' : (c.th a).holds = true := by
-        by_cases ea : a = i
-        · subst ea; simpa [upd] using ha
-        · simpa [upd, ea] using ha
-      have hb' : (c.th b).holds = true := by
-        by_cases eb : b = i
-        · subst eb; simpa [upd] using hb
-        · simpa [upd, eb] using hb
-      exact hmx a b ha' hb'
-    · intro k
-      by_cases ek : k = i
-      · subst ek; have := hg k; rw [hr] at this; simp only [upd_same]; exact this.2
-      · simpa [upd, ek] using hg k
+    refine ⟨fun a b ha hb => hmx a b (holds_upd_same ha) (holds_upd_same hb), ?_⟩
+    intro j
+    by_cases ej : j = i
+    · subst ej; have := hg j; rw [hr] at this; simp only [upd_same]; exact this.2
+    · simpa [upd, ej] using hg j
   | @emit i b r hr =>
-    refine ⟨?_, ?_⟩
-    · intro a b' ha hb
-      have ha' : (c.th a).holds = true := by
-        by_cases ea : a = i
-        · subst ea; simpa [upd] using ha
-        · simpa [upd, ea] using ha
-      have hb' : (c.th b').holds = true := by
-        by_cases eb : b' = i
-        · subst eb; simpa [upd] using hb
-        · simpa [upd, eb] using hb
-      exact hmx a b' ha' hb'
-    · intro k
-      by_cases ek : k = i
-      · subst ek; have := hg k; rw [hr] at this; simp only [upd_same]; exact this
-      · simpa [upd, ek] using hg k
+    refine ⟨fun a b' ha hb => hmx a b' (holds_upd_same ha) (holds_upd_same hb), ?_⟩
+    intro j
+    by_cases ej : j = i
+    · subst ej; have := hg j; rw [hr] at this; simp only [upd_same]; exact this
+    · simpa [upd, ej] using hg j
 
-theorem inv_reach (f : Nat) {c0 c : Cfg} (h0 : Inv f c0) (hr : Reach c0 c) : Inv f c := by
+theorem inv_reach (m f : Nat) {c0 c : Cfg} (h0 : Inv m f c0) (hr : Reach c0 c) : Inv m f c := by
   induction hr with
   | refl => exact h0
-  | step _ hs ih => exact inv_step f ih hs
+  | step _ hs ih => exact inv_step m f ih hs
 
-/-- a thread about to access a guarded field holds the mutex -/
-theorem holds_of_nextAccess {f : Nat} {s : TState} {w : Bool} (hg : Guarded f s.holds s.rest)
-    (hn : nextAccess s f = some w) : s.holds = true := by
+/-- a thread about to access a field guarded by `m` holds `m` -/
+theorem holds_of_nextAccess {m f : Nat} {s : TState} {w : Bool} (hg : GuardedBy m f (s.holds m) s.rest)
+    (hn : nextAccess s f = some w) : s.holds m = true := by
   unfold nextAccess at hn
   split at hn
   · rename_i g r heq
@@ -139,65 +145,159 @@ theorem holds_of_nextAccess {f : Nat} {s : TState} {w : Bool} (hg : Guarded f s.
     · simp [e] at hn
   · cases hn
 
-/-- **lockset_sound.**  If every access to field `f` in every thread is made while that thread holds the mutex,
-    then no reachable configuration — for any number of threads, any programs, any schedule — has a data race on `f`. -/
-theorem lockset_sound (ts : List Thread) (f : Nat) (h : ∀ t ∈ ts, Guarded f false t) :
+/-- **lockset_sound_multi.**  Threads may take and release any number of exclusive mutexes, in any order, holding
+    several at once.  If for field `f` there is ONE mutex `m` such that every access to `f` in every thread is made
+    while that thread holds `m`, then no reachable configuration — for any number of threads, any programs, any
+    schedule — has a data race on `f`. -/
+theorem lockset_sound_multi (ts : List Thread) (f m : Nat) (h : ∀ t ∈ ts, GuardedBy m f false t) :
     ∀ c, Reach (initCfg ts) c → ¬ Race c f := by
   intro c hr ⟨i, j, wi, wj, hne, hi, hj, _⟩
-  have inv := inv_reach f (inv_init f ts h) hr
+  have inv := inv_reach m f (inv_init m f ts h) hr
   exact hne (inv.1 i j (holds_of_nextAccess (inv.2 i) hi) (holds_of_nextAccess (inv.2 j) hj))
 
-/-- the hypothesis of `lockset_sound` is satisfiable by a non-trivial program: two threads that both lock, write
-    and read field 3, unlock — and touch another field (5) without the lock -/
-example : ∀ t ∈ [[Action.lock, .wr 3, .rd 3, .unlock, .wr 5], [Action.rd 5, .lock, .wr 3, .unlock]], Guarded 3 false t := by
+/-- **lockset_sound** (the one-mutex instance the pinned tree needs): every access to `f` under the screen mutex ⇒
+    no reachable race on `f`. -/
+theorem lockset_sound (ts : List Thread) (f : Nat) (h : ∀ t ∈ ts, GuardedBy screenMutex f false t) :
+    ∀ c, Reach (initCfg ts) c → ¬ Race c f := lockset_sound_multi ts f screenMutex h
+
+/-- the hypothesis of `lockset_sound_multi` is satisfiable by a non-trivial program with two mutexes: field 3 is
+    guarded by mutex 1 (engage-like thread: takes 1 then 0, writes 3 and 4; disengage-like thread: takes 1 and 0,
+    releases 0, reads 3 holding 1 only, re-takes 0) while field 5 is touched without any lock -/
+example : ∀ t ∈ [[Action.lock 1, .lock 0, .wr 3, .wr 4, .unlock 0, .unlock 1, .wr 5],
+                 [Action.rd 5, .lock 1, .lock 0, .wr 4, .unlock 0, .rd 3, .lock 0, .wr 4, .unlock 0, .unlock 1]],
+    GuardedBy 1 3 false t := by
   intro t ht
   simp at ht
-  rcases ht with rfl | rfl <;> simp [Guarded]
+  rcases ht with rfl | rfl <;> simp [GuardedBy]
+
+/-- … and in the same two programs field 4 is guarded by mutex 0 -/
+example : ∀ t ∈ [[Action.lock 1, .lock 0, .wr 3, .wr 4, .unlock 0, .unlock 1, .wr 5],
+                 [Action.rd 5, .lock 1, .lock 0, .wr 4, .unlock 0, .rd 3, .lock 0, .wr 4, .unlock 0, .unlock 1]],
+    GuardedBy 0 4 false t := by
+  intro t ht
+  simp at ht
+  rcases ht with rfl | rfl <;> simp [GuardedBy]
 
 /-- the model does exhibit races when the discipline is broken: an unlocked writer (Beep-like) against a locked
     writer (draw-like) on the same field races in a reachable configuration -/
-theorem unguarded_races : ∃ c, Reach (initCfg [[Action.wr 7], [Action.lock, .wr 7, .unlock]]) c ∧ Race c 7 := by
-  refine ⟨_, Reach.step Reach.refl (Step.lock (i := 1) (r := [.wr 7, .unlock]) rfl (by intro j; simp [initCfg])), ?_⟩
+theorem unguarded_races : ∃ c, Reach (initCfg [[Action.wr 7], [Action.lock 0, .wr 7, .unlock 0]]) c ∧ Race c 7 := by
+  refine ⟨_, Reach.step Reach.refl (Step.lock (i := 1) (m := 0) (r := [.wr 7, .unlock 0]) rfl (by intro j; simp [initCfg])), ?_⟩
   refine ⟨0, 1, true, true, by decide, ?_, ?_, Or.inl rfl⟩
   · simp [upd, initCfg, nextAccess]
   · simp [upd, initCfg, nextAccess]
 
+/-- holding DIFFERENT mutexes does not help (the mutant "engage does not take `lifecycle`": `wg.Add` under the screen
+    mutex only against `wg.Wait` under the lifecycle mutex only): both threads get their lock and race -/
+theorem disjoint_locks_race : ∃ c, Reach (initCfg [[Action.lock 0, .wr 7, .unlock 0], [Action.lock 1, .rd 7, .unlock 1]]) c ∧ Race c 7 := by
+  let c0 := initCfg [[Action.lock 0, .wr 7, .unlock 0], [Action.lock 1, .rd 7, .unlock 1]]
+  have s1 : Step c0 _ := Step.lock (i := 0) (m := 0) (r := [.wr 7, .unlock 0]) rfl (by intro j; simp [c0, initCfg])
+  refine ⟨_, Reach.step (Reach.step Reach.refl s1) (Step.lock (i := 1) (m := 1) (r := [.rd 7, .unlock 1]) (by simp [upd, c0, initCfg]) ?_), ?_⟩
+  · intro j
+    by_cases ej : j = 0
+    · subst ej; simp [upd, c0, initCfg, setHold]
+    · simp [upd, ej, c0, initCfg]
+  · refine ⟨0, 1, true, false, by decide, ?_, ?_, Or.inl rfl⟩
+    · simp [upd, c0, initCfg, nextAccess]
+    · simp [upd, nextAccess]
+
 /-! ## from facts to threads -/
 
-theorem guarded_of_conforms_aux (facts : List Fact) (e f : Nat)
-    (hf : ∀ x ∈ facts, x.entry = e → x.conc = true → x.field = f → x.held = true) :
-    ∀ (t : Thread) (h : Bool), (∀ a ∈ accessesOf h t, ∃ nl, (⟨e, a.1, a.2.1, a.2.2, true, nl⟩ : Fact) ∈ facts) → Guarded f h t := by
+theorem guarded_of_conforms_aux (facts : List Fact) (e f m : Nat)
+    (hf : ∀ x ∈ facts, x.entry = e → x.conc = true → x.field = f → x.holds m = true) :
+    ∀ (t : Thread) (h : Nat → Bool),
+      (∀ a ∈ accessesOf h t, ∃ x ∈ facts, x.entry = e ∧ x.field = a.1 ∧ x.wr = a.2.1 ∧ x.conc = true ∧ ∀ k ∈ x.locks, a.2.2 k = true) →
+      GuardedBy m f (h m) t := by
   intro t
   induction t with
   | nil => intro h _; exact True.intro
   | cons a r ih =>
     intro h hc
     cases a with
-    | lock => exact ih true (by simpa [accessesOf] using hc)
-    | unlock => exact ih false (by simpa [accessesOf] using hc)
+    | lock k =>
+      have := ih (setHold h k true) (by simpa [accessesOf] using hc)
+      simpa [GuardedBy, setHold] using this
+    | unlock k =>
+      have := ih (setHold h k false) (by simpa [accessesOf] using hc)
+      simpa [GuardedBy, setHold] using this
     | rd g =>
       refine ⟨?_, ih h (fun a ha => hc a (by simp [accessesOf, ha]))⟩
       intro eg
-      obtain ⟨nl, hm⟩ := hc (g, false, h) (by simp [accessesOf])
-      exact hf _ hm rfl rfl eg
+      obtain ⟨x, hx, he, hfld, _, hcx, hl⟩ := hc (g, false, h) (by simp [accessesOf])
+      have hm := hf x hx he hcx (by rw [hfld]; exact eg)
+      exact hl m (by simpa [Fact.holds] using hm)
     | wr g =>
       refine ⟨?_, ih h (fun a ha => hc a (by simp [accessesOf, ha]))⟩
       intro eg
-      obtain ⟨nl, hm⟩ := hc (g, true, h) (by simp [accessesOf])
-      exact hf _ hm rfl rfl eg
+      obtain ⟨x, hx, he, hfld, _, hcx, hl⟩ := hc (g, true, h) (by simp [accessesOf])
+      have hm := hf x hx he hcx (by rw [hfld]; exact eg)
+      exact hl m (by simpa [Fact.holds] using hm)
     | emit b => exact ih h (by simpa [accessesOf] using hc)
 
 /-- **clean_field_race_free.**  Take any finite set of goroutines, each running any execution path of any entry
-    point (a thread whose accesses are among the concurrent-phase facts extracted for that entry point).  If all
-    concurrent-phase facts on field `f` are lock-held, no reachable configuration has a race on `f`. -/
-theorem clean_field_race_free (facts : List Fact) (f : Nat) (ts : List (Nat × Thread))
+    point (a thread whose accesses are among the concurrent-phase facts extracted for that entry point, holding at
+    least the mutexes the fact records).  If there is one mutex `m` that all concurrent-phase facts on field `f`
+    hold, no reachable configuration has a race on `f`. -/
+theorem clean_field_race_free (facts : List Fact) (f m : Nat) (ts : List (Nat × Thread))
     (hc : ∀ p ∈ ts, Conforms facts p.1 p.2)
-    (hf : ∀ x ∈ facts, x.conc = true → x.field = f → x.held = true) :
+    (hf : ∀ x ∈ facts, x.conc = true → x.field = f → x.holds m = true) :
     ∀ c, Reach (initCfg (ts.map (·.2))) c → ¬ Race c f := by
-  apply lockset_sound
+  apply lockset_sound_multi (m := m)
   intro t ht
   obtain ⟨p, hp, rfl⟩ := List.mem_map.1 ht
-  exact guarded_of_conforms_aux facts p.1 f (fun x hx _ hcx hfx => hf x hx hcx hfx) p.2 false (hc p hp)
+  exact guarded_of_conforms_aux facts p.1 f m (fun x hx _ hcx hfx => hf x hx hcx hfx) p.2 (fun _ => false) (hc p hp)
+
+/-! ## the discipline check is sound (any list of facts) -/
+
+theorem mem_filter_not {α : Type} (p : α → Bool) (l : List α) (x : α) (hx : x ∈ l) : x ∈ l.filter (fun y => !p y) ∨ p x = true := by
+  cases h : p x
+  · left; exact List.mem_filter.2 ⟨hx, by simp [h]⟩
+  · right; rfl
+
+theorem all_of_filter_nil {α : Type} (p : α → Bool) (l : List α) (h : l.filter (fun y => !p y) = []) : ∀ x ∈ l, p x = true := by
+  intro x hx
+  rcases mem_filter_not p l x hx with hm | hp
+  · rw [h] at hm; cases hm
+  · exact hp
+
+/-- **discipline_sound** (generic: ANY list of facts, any classification inputs, any number of mutexes).  If the
+    decidable check flags nothing, then for every field that is not exempt no schedule of any set of goroutines
+    running execution paths of the extracted entry points has a data race on it: the check found a mutex common to
+    all concurrent-phase accesses of the field and `lockset_sound_multi` applies. -/
+theorem discipline_sound (facts : List Fact) (kinds syncs : List Nat) (nFields nMutex : Nat)
+    (h : flaggedOf facts kinds syncs nFields nMutex = [])
+    (f : Nat) (hne : f ∉ exemptFields facts kinds syncs nFields)
+    (ts : List (Nat × Thread)) (hc : ∀ p ∈ ts, Conforms facts p.1 p.2) :
+    ∀ c, Reach (initCfg (ts.map (·.2))) c → ¬ Race c f := by
+  apply clean_field_race_free facts f ((guardsOf facts nMutex nFields).getD f 0) ts hc
+  intro x hx hcx hfx
+  have hok := all_of_filter_nil _ facts h x hx
+  simp only [factOk, hcx, hfx, Bool.not_true, Bool.false_or, Bool.or_eq_true] at hok
+  rcases hok with he | hh
+  · exact absurd (List.contains_iff_mem.1 he) hne
+  · exact hh
+
+/-- a miniature of the lifecycle fix (mutex 0 = screen, 1 = lifecycle; fields 0 = cells, 1 = wg.state, 2 = a sync
+    primitive; entries 0 = SetContent, 1 = Resume/engage, 2 = Suspend/disengage): wg.Add holds {0,1}, wg.Wait holds {1},
+    the tail of disengage writes cells holding {0,1}, SetContent writes cells holding {0} … -/
+def miniFixed : List Fact :=
+  [⟨0, 0, true, [0], true, false⟩, ⟨1, 0, true, [0, 1], true, false⟩, ⟨1, 1, true, [0, 1], true, false⟩,
+   ⟨2, 1, false, [1], true, true⟩, ⟨2, 0, true, [0, 1], true, true⟩]
+
+/-- … nothing is flagged (the hypothesis of `discipline_sound` is satisfiable with two mutexes): cells is guarded by the
+    screen mutex, wg.state by lifecycle -/
+example : flaggedOf miniFixed [0, 0, 0] [2] 3 2 = [] ∧ guardsOf miniFixed 2 3 = [0, 1, 0] ∧
+    0 ∉ exemptFields miniFixed [0, 0, 0] [2] 3 ∧ 1 ∉ exemptFields miniFixed [0, 0, 0] [2] 3 := by decide
+
+/-- the pinned shape (wg.Wait and the tail hold nothing): exactly the two accesses of disengage are flagged -/
+example : flaggedOf [⟨0, 0, true, [0], true, false⟩, ⟨1, 0, true, [0], true, false⟩, ⟨1, 1, true, [0], true, false⟩,
+    ⟨2, 1, false, [], true, true⟩, ⟨2, 0, true, [], true, true⟩] [0, 0, 0] [2] 3 1
+    = [⟨2, 1, false, [], true, true⟩, ⟨2, 0, true, [], true, true⟩] := by decide
+
+/-- the mutant "engage does not take lifecycle" (wg.Add holds {0}, wg.Wait holds {1}): the lock sets of wg.state are
+    disjoint, the access that does not hold the lowest-numbered candidate (the Wait) is flagged — cf. `disjoint_locks_race` -/
+example : flaggedOf [⟨0, 0, true, [0], true, false⟩, ⟨1, 0, true, [0], true, false⟩, ⟨1, 1, true, [0], true, false⟩,
+    ⟨2, 1, false, [1], true, true⟩, ⟨2, 0, true, [0, 1], true, true⟩] [0, 0, 0] [2] 3 2
+    = [⟨2, 1, false, [1], true, true⟩] := by decide
 
 /-! ## the discipline on the regenerated facts -/
 
@@ -208,57 +308,61 @@ open Tcell.Gen.LockFacts in
 theorem exempt_exact : exemptFields facts entryKind syncFields nFields = exempt := by decide +kernel
 
 open Tcell.Gen.LockFacts in
-/-- **flagged_exact.**  The kernel recomputes, with the Lean definition of the discipline, the list of violating
-    facts from the regenerated `facts` and finds exactly the list the translator reported (`flagged`).  On the
-    pinned tree the list is not empty: it consists of the unlocked accesses of Beep, SetSize, CanDisplay
-    (fallback map, encoder state), the tail of disengage (entered from Suspend and Fini), and, on simscreen, of
-    Fini's tail, Enable/DisableMouse, Enable/DisablePaste, CanDisplay, SetTitle/GetTitle, SetClipboard/GetClipboard/
-    GetClipboardData and InjectKeyBytes.  The race harness must reproduce every flagged entry point. -/
-theorem flagged_exact : flaggedOf facts entryKind syncFields nFields = flagged := by
-  unfold flaggedOf
-  rw [exempt_exact]
-  decide +kernel
-
-theorem mem_filter_not {α : Type} (p : α → Bool) (l : List α) (x : α) (hx : x ∈ l) : x ∈ l.filter (fun y => !p y) ∨ p x = true := by
-  cases h : p x
-  · left; exact List.mem_filter.2 ⟨hx, by simp [h]⟩
-  · right; rfl
+/-- **guards_exact.**  The kernel recomputes for every field the mutex its accesses are judged against — a mutex in the
+    intersection of the lock sets of all its concurrent-phase accesses when there is one — and finds the list the
+    translator reported. -/
+theorem guards_exact : guardsOf facts nMutexes nFields = guards := by decide +kernel
 
 open Tcell.Gen.LockFacts in
-/-- **discipline_partial.**  Every extracted fact outside the flagged list respects the lockset discipline: it is
-    an init-phase access, or the mutex is held, or the field is exempt (synchronisation primitive, never written in the
-    concurrent phase, or confined to one internal goroutine).
-    WHY STILL PARTIAL on the current tree: the full `discipline` — `flagged = []` — is still false.  After /repo da67ed6
+/-- **flagged_exact.**  The kernel recomputes, with the Lean definition of the discipline, the list of violating
+    facts from the regenerated `facts` and finds exactly the list the translator reported (`flagged`).  On the
+    pinned tree the list is not empty: it consists of the accesses the tail of disengage makes without any mutex
+    (entered from Suspend and Fini; `wg.Wait` included: `wg.Add` holds the screen mutex, `wg.Wait` nothing).  With fix
+    C10-disengage-lifecycle it is empty.  The race harness must reproduce every flagged entry point. -/
+theorem flagged_exact : flaggedOf facts entryKind syncFields nFields nMutexes = flagged := by
+  unfold flaggedOf
+  rw [exempt_exact, guards_exact]
+  decide +kernel
+
+open Tcell.Gen.LockFacts in
+/-- the discipline on one fact of the tree under test: init-phase access, or exempt field (synchronisation primitive,
+    never written in the concurrent phase, or confined to one internal goroutine), or the access holds the field's guard -/
+abbrev FactOkTree (x : Fact) : Prop :=
+  factOk (exemptFields facts entryKind syncFields nFields) (guardsOf facts nMutexes nFields) x = true
+
+open Tcell.Gen.LockFacts in
+/-- **discipline_partial.**  Every extracted fact outside the flagged list respects the lockset discipline.
+    WHY PARTIAL on the pinned tree: the full `discipline` — `flagged = []` — is false there.  After /repo da67ed6
     (Beep, CanDisplay, SetSize) and 5249fc9 (simscreen methods) the regenerated `flagged` list consists exactly of the
     accesses made by the tail of `disengage` when entered from `tscreen/Fini` and `tscreen/Suspend` (`flagged_only_disengage`:
     `wg.state`, `cells`, `buffering`, `buf`, `tty.out`, `cursorShaped`, `cursorTinted` after the lock was released for
-    `wg.Wait`): the open findings `C10-disengage-tail` / `C10-loops-overlap`, reproduced by engine `race` under the race
-    detector on every run (keeping the lock across `wg.Wait` deadlocks with the loops' exit path, so the repair is a
-    restructuring of shutdown — not delivered).  What IS full strength now: `discipline_except_disengage` below. -/
-theorem discipline_partial : ∀ x ∈ facts, x ∈ flagged ∨
-    factOk (exemptFields facts entryKind syncFields nFields) x = true := by
+    `wg.Wait`): the findings `C10-disengage-tail` / `C10-loops-overlap`, reproduced by engine `race` under the race
+    detector on every run.  On a tree with fix C10-disengage-lifecycle `flagged = []` and `discipline_tree` is the
+    full statement. -/
+theorem discipline_partial : ∀ x ∈ facts, x ∈ flagged ∨ FactOkTree x := by
   intro x hx
-  have := mem_filter_not (factOk (exemptFields facts entryKind syncFields nFields)) facts x hx
+  have := mem_filter_not (factOk (exemptFields facts entryKind syncFields nFields) (guardsOf facts nMutexes nFields)) facts x hx
   rw [← flagged_exact]
   exact this
 
 open Tcell.Gen.LockFacts in
-/-- the two entry points whose `disengage` tail is the open finding -/
+/-- the two entry points whose `disengage` tail is the finding on the pinned tree -/
 def disengageEntries : List Nat := [entryNames.idxOf "tscreen/Fini", entryNames.idxOf "tscreen/Suspend"]
 
 open Tcell.Gen.LockFacts in
-/-- on the current tree every flagged fact belongs to `tscreen/Fini` or `tscreen/Suspend`, is a concurrent-phase access
-    without the lock, and both names are real entry points (kernel evaluation over the regenerated facts) -/
+/-- on the tree under test every flagged fact belongs to `tscreen/Fini` or `tscreen/Suspend`, is a concurrent-phase access
+    that does not hold the screen mutex, and both names are real entry points (kernel evaluation over the regenerated
+    facts); mutex 0 is the embedded mutex of tScreen -/
 theorem flagged_only_disengage :
-    flagged.all (fun x => disengageEntries.contains x.entry && x.conc && !x.held) = true ∧
-    disengageEntries.all (fun e => decide (e < entryNames.length)) = true := by decide +kernel
+    flagged.all (fun x => disengageEntries.contains x.entry && x.conc && !x.holds screenMutex) = true ∧
+    disengageEntries.all (fun e => decide (e < entryNames.length)) = true ∧
+    mutexNames.head? = some "tscreen/Mutex" := by decide +kernel
 
 open Tcell.Gen.LockFacts in
-/-- **discipline_except_disengage** (full strength for every other entry point, current tree): every extracted fact of
-    EVERY entry point of tScreen and simscreen other than `tscreen/Fini` and `tscreen/Suspend` — Beep, SetSize, CanDisplay
-    and the simscreen methods that were flagged on the pinned tree included — respects the lockset discipline. -/
-theorem discipline_except_disengage : ∀ x ∈ facts, x.entry ∉ disengageEntries →
-    factOk (exemptFields facts entryKind syncFields nFields) x = true := by
+/-- **discipline_except_disengage** (full strength for every other entry point, either variant of the tree): every extracted
+    fact of EVERY entry point of tScreen and simscreen other than `tscreen/Fini` and `tscreen/Suspend` — Beep, SetSize,
+    CanDisplay and the simscreen methods that were flagged before da67ed6 / 5249fc9 included — respects the lockset discipline. -/
+theorem discipline_except_disengage : ∀ x ∈ facts, x.entry ∉ disengageEntries → FactOkTree x := by
   intro x hx hne
   rcases discipline_partial x hx with hf | hok
   · exfalso
@@ -268,26 +372,42 @@ theorem discipline_except_disengage : ∀ x ∈ facts, x.entry ∉ disengageEntr
   · exact hok
 
 open Tcell.Gen.LockFacts in
-/-- non-vacuity: facts of the formerly flagged entry points exist and are covered (Beep writes `buf` holding the lock) -/
-example : ∃ x ∈ facts, x.entry = entryNames.idxOf "tscreen/Beep" ∧ x.entry ∉ disengageEntries ∧ x.wr = true ∧ x.held = true := by
+/-- non-vacuity: facts of the formerly flagged entry points exist and are covered (Beep writes `buf` holding the screen mutex) -/
+example : ∃ x ∈ facts, x.entry = entryNames.idxOf "tscreen/Beep" ∧ x.entry ∉ disengageEntries ∧ x.wr = true ∧ x.holds screenMutex = true := by
   decide +kernel
+
+open Tcell.Gen.LockFacts in
+/-- **discipline** (full strength, no exception): when the regenerated flagged list is empty EVERY extracted fact of EVERY
+    entry point — Fini and Suspend included — respects the discipline. -/
+theorem discipline (h : flagged = []) : ∀ x ∈ facts, FactOkTree x := by
+  intro x hx
+  rcases discipline_partial x hx with hf | hok
+  · rw [h] at hf; cases hf
+  · exact hok
+
+open Tcell.Gen.LockFacts in
+/-- **discipline_tree** (headline; the kernel decides which variant the tree under test is): on a tree whose regenerated
+    flagged list is empty (fix C10-disengage-lifecycle: the `lifecycle` mutex serialises engage/disengage — `wg.Add`
+    holds {lifecycle, screen}, `wg.Wait` holds {lifecycle}, the tail of disengage holds both) every fact respects the
+    discipline, unconditionally; on the pinned tree every fact of every entry point but Fini/Suspend does. -/
+theorem discipline_tree :
+    if flagged.isEmpty then ∀ x ∈ facts, FactOkTree x
+    else ∀ x ∈ facts, x.entry ∉ disengageEntries → FactOkTree x := by
+  split
+  · rename_i h
+    exact discipline (List.isEmpty_iff.1 h)
+  · exact discipline_except_disengage
 
 open Tcell.Gen.LockFacts in
 /-- fields of class "must be guarded" that no flagged fact mentions: on these `clean_field_race_free` applies -/
 def cleanFields : List Nat :=
   (List.range nFields).filter fun f => !exempt.contains f && !flagged.any (·.field == f)
 
-theorem all_of_filter_nil {α : Type} (p : α → Bool) (l : List α) (h : l.filter (fun y => !p y) = []) : ∀ x ∈ l, p x = true := by
-  intro x hx
-  rcases mem_filter_not p l x hx with hm | hp
-  · rw [h] at hm; cases hm
-  · exact hp
-
 open Tcell.Gen.LockFacts in
-/-- **clean_fields_held.**  For every clean field all concurrent-phase facts are lock-held (kernel evaluation on the
-    regenerated facts) … -/
-theorem clean_fields_held : ∀ f ∈ cleanFields, ∀ x ∈ facts, x.conc = true → x.field = f → x.held = true := by
-  have h : (cleanFields.all fun f => facts.all fun x => !(x.conc && x.field == f) || x.held) = true := by decide +kernel
+/-- **clean_fields_held.**  For every clean field all concurrent-phase facts hold the field's guard mutex (kernel
+    evaluation on the regenerated facts) … -/
+theorem clean_fields_held : ∀ f ∈ cleanFields, ∀ x ∈ facts, x.conc = true → x.field = f → x.holds (guards.getD f 0) = true := by
+  have h : (cleanFields.all fun f => facts.all fun x => !(x.conc && x.field == f) || x.holds (guards.getD f 0)) = true := by decide +kernel
   intro f hf x hx hc he
   have h1 := List.all_eq_true.1 h f hf
   have h2 := List.all_eq_true.1 h1 x hx
@@ -296,33 +416,70 @@ theorem clean_fields_held : ∀ f ∈ cleanFields, ∀ x ∈ facts, x.conc = tru
 
 open Tcell.Gen.LockFacts in
 /-- … hence **no schedule of any set of goroutines running extracted entry points races on a clean field**
-    (cells, w/h, cursor, style, modes, colors map … on the pinned tree exactly the guarded-class fields that
-    Beep/SetSize/CanDisplay/disengage do not touch). -/
+    (on the pinned tree exactly the guarded-class fields that the tail of disengage does not touch; with fix
+    C10-disengage-lifecycle every guarded-class field, see `fields_race_free_tree`). -/
 theorem clean_fields_race_free (f : Nat) (hf : f ∈ cleanFields) (ts : List (Nat × Thread))
     (hc : ∀ p ∈ ts, Conforms facts p.1 p.2) : ∀ c, Reach (initCfg (ts.map (·.2))) c → ¬ Race c f :=
-  clean_field_race_free facts f ts hc (clean_fields_held f hf)
+  clean_field_race_free facts f (guards.getD f 0) ts hc (clean_fields_held f hf)
 
 open Tcell.Gen.LockFacts in
 /-- the clean list is not vacuous on the current tree -/
 example : cleanFields ≠ [] := by decide +kernel
 
 open Tcell.Gen.LockFacts in
+/-- when nothing is flagged every field that needs protection is clean -/
+theorem clean_fields_all (h : flagged = []) (f : Nat) (hlt : f < nFields) (hne : f ∉ exempt) : f ∈ cleanFields := by
+  unfold cleanFields
+  rw [List.mem_filter]
+  refine ⟨List.mem_range.2 hlt, ?_⟩
+  rw [h]
+  simp [hne]
+
+open Tcell.Gen.LockFacts in
+/-- **fields_race_free_tree** (headline; the kernel decides which variant the tree under test is): on a tree whose
+    regenerated flagged list is empty, for EVERY struct field of tScreen and simscreen that is not exempt (synchronisation
+    primitive / init-only / confined to one internal goroutine) no schedule of any set of goroutines running extracted
+    entry points has a data race — `cells`, `buf`, `tty.out`, `running`, `wg.state`, the cursor state … included; on the
+    pinned tree the statement is the `cleanFields` one. -/
+theorem fields_race_free_tree (f : Nat) (ts : List (Nat × Thread)) (hc : ∀ p ∈ ts, Conforms facts p.1 p.2) :
+    if flagged.isEmpty then (f < nFields → f ∉ exempt → ∀ c, Reach (initCfg (ts.map (·.2))) c → ¬ Race c f)
+    else (f ∈ cleanFields → ∀ c, Reach (initCfg (ts.map (·.2))) c → ¬ Race c f) := by
+  split
+  · rename_i h
+    intro hlt hne
+    exact clean_fields_race_free f (clean_fields_all (List.isEmpty_iff.1 h) f hlt hne) ts hc
+  · intro hf
+    exact clean_fields_race_free f hf ts hc
+
+open Tcell.Gen.LockFacts in
+/-- `wg.state` (the pseudo-field standing for the WaitGroup counter: `Add` a write, `Wait` a read, `Done` pure
+    synchronisation) is a field that needs protection on either variant — so `fields_race_free_tree` is about it — and
+    `running`, `cells`, `buf`, `tty.out` are too -/
+example : ["tscreen/wg.state", "tscreen/running", "tscreen/cells", "tscreen/buf", "tscreen/tty.out"].all
+    (fun n => decide (fieldNames.idxOf n < nFields) && !exempt.contains (fieldNames.idxOf n)) = true := by decide +kernel
+
+open Tcell.Gen.LockFacts in
 /-- `Conforms` is satisfiable on the regenerated facts: the path `Lock; t.style = …; Unlock` of SetStyle (tscreen.go:687) -/
 example : Conforms facts (entryNames.idxOf "tscreen/SetStyle")
-    [.lock, .wr (fieldNames.idxOf "tscreen/style"), .unlock] := by
+    [.lock 0, .wr (fieldNames.idxOf "tscreen/style"), .unlock 0] := by
   intro a ha
   simp only [accessesOf, List.mem_singleton] at ha
   subst ha
-  exact ⟨false, by decide +kernel⟩
+  refine ⟨⟨entryNames.idxOf "tscreen/SetStyle", fieldNames.idxOf "tscreen/style", true, [0], true, false⟩, by decide +kernel, rfl, rfl, rfl, rfl, ?_⟩
+  intro k hk
+  simp at hk
+  subst hk
+  rfl
 
 /-! ## Show reaches the tty as one contiguous block -/
 
+/-- invariant about the screen mutex (mutex 0) and the output log; the other mutexes play no role -/
 def BInv (c : Cfg) : Prop :=
-  (∀ i j, (c.th i).holds = true → (c.th j).holds = true → i = j) ∧
-  (∀ i, EmitGuarded (c.th i).holds (c.th i).rest) ∧
+  (∀ i j, (c.th i).holds 0 = true → (c.th j).holds 0 = true → i = j) ∧
+  (∀ i, EmitGuarded ((c.th i).holds 0) (c.th i).rest) ∧
   Chunked (tags c) ∧
   (∀ i k, (i, k) ∈ tags c → k ≤ (c.th i).sec) ∧
-  (∀ i, (c.th i).holds = true → (i, (c.th i).sec) ∈ tags c → (tags c).head? = some (i, (c.th i).sec))
+  (∀ i, (c.th i).holds 0 = true → (i, (c.th i).sec) ∈ tags c → (tags c).head? = some (i, (c.th i).sec))
 
 theorem binv_init (ts : List Thread) (h : ∀ t ∈ ts, EmitGuarded false t) : BInv (initCfg ts) := by
   refine ⟨?_, ?_, ?_, ?_, ?_⟩
@@ -336,103 +493,112 @@ theorem binv_init (ts : List Thread) (h : ∀ t ∈ ts, EmitGuarded false t) : B
   · intro i k hk; simp [tags, initCfg] at hk
   · intro i hi; simp [initCfg] at hi
 
-theorem holds_upd_of_ne {c : Cfg} {i a k : Nat} {r : Thread}
-    (ha : (upd c.th i ⟨(c.th i).holds, k, r⟩ a).holds = true) : (c.th a).holds = true := by
-  by_cases ea : a = i
-  · subst ea; simpa [upd] using ha
-  · simpa [upd, ea] using ha
+/-- the step of thread `i` replaced its state by one with the same screen-mutex bit and the same section counter:
+    the whole invariant, except for the `EmitGuarded` clause of thread `i` itself, carries over -/
+theorem binv_frame {c : Cfg} {i : Nat} {s : TState} (hi : BInv c)
+    (hh : s.holds 0 = (c.th i).holds 0) (hs : s.sec = (c.th i).sec) (hg : EmitGuarded (s.holds 0) s.rest) :
+    BInv ⟨upd c.th i s, c.log⟩ := by
+  obtain ⟨hmx, hgd, hch, hbd, hhd⟩ := hi
+  have hold : ∀ a, (upd c.th i s a).holds 0 = (c.th a).holds 0 := by
+    intro a; by_cases ea : a = i
+    · subst ea; simpa [upd] using hh
+    · simp [upd, ea]
+  have hsec : ∀ a, (upd c.th i s a).sec = (c.th a).sec := by
+    intro a; by_cases ea : a = i
+    · subst ea; simpa [upd] using hs
+    · simp [upd, ea]
+  refine ⟨?_, ?_, hch, ?_, ?_⟩
+  · intro a b ha hb; rw [hold] at ha hb; exact hmx a b ha hb
+  · intro k
+    by_cases ek : k = i
+    · subst ek; simpa [upd] using hg
+    · simpa [upd, ek] using hgd k
+  · intro a k hk; show k ≤ (upd c.th i s a).sec; rw [hsec]; exact hbd a k hk
+  · intro a ha hin
+    show (tags c).head? = some (a, (upd c.th i s a).sec)
+    have ha' : (c.th a).holds 0 = true := by rw [← hold]; exact ha
+    have hin' : (a, (c.th a).sec) ∈ tags c := by rw [← hsec]; exact hin
+    rw [hsec]; exact hhd a ha' hin'
 
 theorem binv_step {c c' : Cfg} (hi : BInv c) (hs : Step c c') : BInv c' := by
-  obtain ⟨hmx, hg, hch, hbd, hhd⟩ := hi
   cases hs with
-  | @lock i r hr hfree =>
-    refine ⟨?_, ?_, hch, ?_, ?_⟩
-    · intro a b ha hb
-      by_cases ea : a = i <;> by_cases eb : b = i
-      · rw [ea, eb]
-      · simp [upd, eb] at hb; rw [hfree b] at hb; cases hb
-      · simp [upd, ea] at ha; rw [hfree a] at ha; cases ha
-      · simp [upd, ea] at ha; rw [hfree a] at ha; cases ha
-    · intro k
-      by_cases ek : k = i
-      · subst ek; have := hg k; rw [hr] at this; simpa [EmitGuarded] using this
-      · simpa [upd, ek] using hg k
-    · intro a k hk
-      have := hbd a k hk
-      by_cases ea : a = i
-      · subst ea; simp [upd]; omega
-      · simpa [upd, ea] using this
-    · intro a ha hin
-      by_cases ea : a = i
-      · subst ea
-        simp [upd] at hin
-        have := hbd a _ hin
-        omega
-      · simp [upd, ea] at ha; rw [hfree a] at ha; cases ha
-  | @unlock i r hr hh =>
-    refine ⟨?_, ?_, hch, ?_, ?_⟩
-    · intro a b ha hb
-      by_cases ea : a = i
-      · subst ea; simp [upd] at ha
-      · by_cases eb : b = i
-        · subst eb; simp [upd] at hb
-        · simp [upd, ea] at ha; simp [upd, eb] at hb; exact hmx a b ha hb
-    · intro k
-      by_cases ek : k = i
-      · subst ek; have := hg k; rw [hr] at this; simpa [EmitGuarded] using this
-      · simpa [upd, ek] using hg k
-    · intro a k hk
-      have := hbd a k hk
-      by_cases ea : a = i
-      · subst ea; simpa [upd] using this
-      · simpa [upd, ea] using this
-    · intro a ha hin
-      by_cases ea : a = i
-      · subst ea; simp [upd] at ha
-      · simp [upd, ea] at ha hin ⊢; exact hhd a ha hin
+  | @lock i k r hr hfree =>
+    by_cases hk : k = 0
+    · subst hk
+      obtain ⟨hmx, hg, hch, hbd, hhd⟩ := hi
+      refine ⟨?_, ?_, hch, ?_, ?_⟩
+      · intro a b ha hb
+        by_cases ea : a = i <;> by_cases eb : b = i
+        · rw [ea, eb]
+        · simp [upd, eb] at hb; rw [hfree b] at hb; cases hb
+        · simp [upd, ea] at ha; rw [hfree a] at ha; cases ha
+        · simp [upd, ea] at ha; rw [hfree a] at ha; cases ha
+      · intro j
+        by_cases ej : j = i
+        · subst ej; have := hg j; rw [hr] at this; simpa [EmitGuarded] using this
+        · simpa [upd, ej] using hg j
+      · intro a k hk
+        have := hbd a k hk
+        by_cases ea : a = i
+        · subst ea; simp [upd]; omega
+        · simpa [upd, ea] using this
+      · intro a ha hin
+        by_cases ea : a = i
+        · subst ea
+          simp [upd] at hin
+          have := hbd a _ hin
+          omega
+        · simp [upd, ea] at ha; rw [hfree a] at ha; cases ha
+    · have hgi := hi.2.1 i
+      rw [hr] at hgi
+      exact binv_frame hi (setHold_other _ _ _ _ (fun h0 => hk h0.symm)) (by simp [hk])
+        (by simpa [EmitGuarded, hk, setHold, Ne.symm hk] using hgi)
+  | @unlock i k r hr hh =>
+    by_cases hk : k = 0
+    · subst hk
+      obtain ⟨hmx, hg, hch, hbd, hhd⟩ := hi
+      refine ⟨?_, ?_, hch, ?_, ?_⟩
+      · intro a b ha hb
+        by_cases ea : a = i
+        · subst ea; simp [upd] at ha
+        · by_cases eb : b = i
+          · subst eb; simp [upd] at hb
+          · simp [upd, ea] at ha; simp [upd, eb] at hb; exact hmx a b ha hb
+      · intro j
+        by_cases ej : j = i
+        · subst ej; have := hg j; rw [hr] at this; simpa [EmitGuarded] using this
+        · simpa [upd, ej] using hg j
+      · intro a k hk
+        have := hbd a k hk
+        by_cases ea : a = i
+        · subst ea; simpa [upd] using this
+        · simpa [upd, ea] using this
+      · intro a ha hin
+        by_cases ea : a = i
+        · subst ea; simp [upd] at ha
+        · simp [upd, ea] at ha hin ⊢; exact hhd a ha hin
+    · have hgi := hi.2.1 i
+      rw [hr] at hgi
+      exact binv_frame hi (setHold_other _ _ _ _ (fun h0 => hk h0.symm)) rfl
+        (by simpa [EmitGuarded, hk, setHold, Ne.symm hk] using hgi)
   | @rd i g r hr =>
-    refine ⟨?_, ?_, hch, ?_, ?_⟩
-    · intro a b ha hb
-      exact hmx a b (holds_upd_of_ne ha) (holds_upd_of_ne hb)
-    · intro k
-      by_cases ek : k = i
-      · subst ek; have := hg k; rw [hr] at this; simpa [EmitGuarded] using this
-      · simpa [upd, ek] using hg k
-    · intro a k hk
-      have := hbd a k hk
-      by_cases ea : a = i
-      · subst ea; simpa [upd] using this
-      · simpa [upd, ea] using this
-    · intro a ha hin
-      by_cases ea : a = i
-      · subst ea; simp [upd] at ha hin ⊢; exact hhd a ha hin
-      · simp [upd, ea] at ha hin ⊢; exact hhd a ha hin
+    have hgi := hi.2.1 i
+    rw [hr] at hgi
+    exact binv_frame hi rfl rfl (by simpa [EmitGuarded] using hgi)
   | @wr i g r hr =>
-    refine ⟨?_, ?_, hch, ?_, ?_⟩
-    · intro a b ha hb
-      exact hmx a b (holds_upd_of_ne ha) (holds_upd_of_ne hb)
-    · intro k
-      by_cases ek : k = i
-      · subst ek; have := hg k; rw [hr] at this; simpa [EmitGuarded] using this
-      · simpa [upd, ek] using hg k
-    · intro a k hk
-      have := hbd a k hk
-      by_cases ea : a = i
-      · subst ea; simpa [upd] using this
-      · simpa [upd, ea] using this
-    · intro a ha hin
-      by_cases ea : a = i
-      · subst ea; simp [upd] at ha hin ⊢; exact hhd a ha hin
-      · simp [upd, ea] at ha hin ⊢; exact hhd a ha hin
+    have hgi := hi.2.1 i
+    rw [hr] at hgi
+    exact binv_frame hi rfl rfl (by simpa [EmitGuarded] using hgi)
   | @emit i b r hr =>
+    obtain ⟨hmx, hg, hch, hbd, hhd⟩ := hi
     have hgi := hg i
     rw [hr] at hgi
-    have hih : (c.th i).holds = true := hgi.1
+    have hih : (c.th i).holds 0 = true := hgi.1
     have htag : tags ⟨upd c.th i ⟨(c.th i).holds, (c.th i).sec, r⟩, (i, (c.th i).sec, b) :: c.log⟩
         = (i, (c.th i).sec) :: tags c := by simp [tags]
     refine ⟨?_, ?_, ?_, ?_, ?_⟩
     · intro a b' ha hb
-      exact hmx a b' (holds_upd_of_ne ha) (holds_upd_of_ne hb)
+      exact hmx a b' (holds_upd_same ha) (holds_upd_same hb)
     · intro k
       by_cases ek : k = i
       · subst ek; simp only [upd_same]; exact hgi.2
@@ -449,7 +615,7 @@ theorem binv_step {c c' : Cfg} (hi : BInv c) (hs : Step c c') : BInv c' := by
         · simpa [upd, ea] using this
     · intro a ha _
       rw [htag]
-      have ha' : (c.th a).holds = true := holds_upd_of_ne ha
+      have ha' : (c.th a).holds 0 = true := holds_upd_same ha
       have : a = i := hmx a i ha' hih
       subst this
       simp [upd]
@@ -460,7 +626,8 @@ theorem binv_reach {c0 c : Cfg} (h0 : BInv c0) (hr : Reach c0 c) : BInv c := by
   | step _ hs ih => exact binv_step ih hs
 
 /-- **show_block_contiguous** (model level).  If every emission to the tty, in every thread, is made while
-    holding the screen mutex, then in every reachable configuration — any number of threads, any schedule — the
+    holding the screen mutex (mutex 0; whatever other mutexes the threads take, `lifecycle` of the fix included),
+    then in every reachable configuration — any number of threads, any schedule — the
     output stream is a sequence of runs, one per (thread, critical section): what one critical section (one
     Show: draw buffers and issues its single Write under the lock) emitted is never split by foreign bytes. -/
 theorem blocks_contiguous (ts : List Thread) (h : ∀ t ∈ ts, EmitGuarded false t) :
@@ -492,29 +659,30 @@ theorem chunked_no_split {α : Type} (a : α) (l2 : List α) : ∀ (l1 l3 : List
       exact ih [x] l3 (by simpa using h1) b hb'
 
 /-- hypotheses of `blocks_contiguous` are satisfiable: two Show-like threads and a Beep-like thread that takes the lock -/
-example : ∀ t ∈ [[Action.lock, .emit 27, .emit 91, .unlock, .lock, .emit 27, .unlock], [Action.lock, .emit 7, .unlock]],
+example : ∀ t ∈ [[Action.lock 0, .emit 27, .emit 91, .unlock 0, .lock 0, .emit 27, .unlock 0], [Action.lock 0, .emit 7, .unlock 0],
+                 [Action.lock 1, .lock 0, .emit 27, .unlock 0, .wr 2, .lock 0, .emit 99, .unlock 0, .unlock 1]],
     EmitGuarded false t := by
   intro t ht
   simp at ht
-  rcases ht with rfl | rfl <;> simp [EmitGuarded]
+  rcases ht with rfl | rfl | rfl <;> simp [EmitGuarded]
 
 /-- and an unlocked emitter (Beep as it is, tscreen.go:2100) does split a block in the model:
     thread 0 = Show emitting bytes 1,2 under the lock, thread 1 = Beep emitting 7 without it -/
-theorem unguarded_emit_splits : ∃ c, Reach (initCfg [[Action.lock, .emit 1, .emit 2, .unlock], [Action.emit 7]]) c ∧
+theorem unguarded_emit_splits : ∃ c, Reach (initCfg [[Action.lock 0, .emit 1, .emit 2, .unlock 0], [Action.emit 7]]) c ∧
     ¬ Chunked (tags c) := by
-  let c0 := initCfg [[Action.lock, .emit 1, .emit 2, .unlock], [Action.emit 7]]
-  have s1 : Step c0 _ := Step.lock (i := 0) (r := [.emit 1, .emit 2, .unlock]) rfl (by intro j; simp [c0, initCfg])
-  have s2 := Step.emit (c := ⟨upd c0.th 0 ⟨true, (c0.th 0).sec + 1, [.emit 1, .emit 2, .unlock]⟩, c0.log⟩) (i := 0) (b := 1) (r := [.emit 2, .unlock]) (by simp [upd])
+  let c0 := initCfg [[Action.lock 0, .emit 1, .emit 2, .unlock 0], [Action.emit 7]]
+  have s1 : Step c0 _ := Step.lock (i := 0) (m := 0) (r := [.emit 1, .emit 2, .unlock 0]) rfl (by intro j; simp [c0, initCfg])
+  have s2 := Step.emit (c := ⟨upd c0.th 0 ⟨setHold (c0.th 0).holds 0 true, (c0.th 0).sec + (if (0:Nat) = 0 then 1 else 0), [.emit 1, .emit 2, .unlock 0]⟩, c0.log⟩) (i := 0) (b := 1) (r := [.emit 2, .unlock 0]) (by simp [upd])
   have s3 := Step.emit (c := _) (i := 1) (b := 7) (r := []) (by simp [upd, c0, initCfg]) |> Reach.step (Reach.step (Reach.step Reach.refl s1) s2)
-  refine ⟨_, Reach.step s3 (Step.emit (i := 0) (b := 2) (r := [.unlock]) (by simp [upd])), ?_⟩
+  refine ⟨_, Reach.step s3 (Step.emit (i := 0) (b := 2) (r := [.unlock 0]) (by simp [upd])), ?_⟩
   simp [tags, Chunked, upd, c0, initCfg]
 
 open Tcell.Gen.LockFacts in
 /-- **show_block_shape** (facts level; kernel-evaluated on the regenerated facts).  (1) draw sets `buffering` before
     its first emission, resets it in a deferred function and hands `buf` to the tty exactly once, as its last
     statement; the only other functions that hand `t.tty` to a writer are writeString and TPuts and both choose
-    `&t.buf` when `buffering`.  (2) Every fact of `Show`, `Sync` and `mainLoop` on `buf`, `buffering` and `tty.out` is
-    lock-held.  Together with `blocks_contiguous`: a Show's bytes form one block; the block can only be split or
+    `&t.buf` when `buffering`.  (2) Every fact of `Show`, `Sync` and `mainLoop` on `buf`, `buffering` and `tty.out` holds
+    the screen mutex.  Together with `blocks_contiguous`: a Show's bytes form one block; the block can only be split or
     polluted by an entry point that is *flagged* on `buf`/`buffering`/`tty.out`. -/
 theorem show_block_shape :
     (drawSetsBuffering && drawResetsBufferingDeferred && drawSingleFinalWrite && writersBranchOnBuffering) = true ∧
@@ -522,7 +690,7 @@ theorem show_block_shape :
       !(x.conc && (entryNames.getD x.entry "" == "tscreen/Show" || entryNames.getD x.entry "" == "tscreen/Sync" ||
                    entryNames.getD x.entry "" == "tscreen/mainLoop") &&
         (fieldNames.getD x.field "" == "tscreen/buf" || fieldNames.getD x.field "" == "tscreen/buffering" ||
-         fieldNames.getD x.field "" == "tscreen/tty.out")) || x.held) = true := by
+         fieldNames.getD x.field "" == "tscreen/tty.out")) || x.holds screenMutex) = true := by
   constructor <;> decide +kernel
 
 end Tcell.Props.C10
